@@ -139,13 +139,18 @@ def instance_fails(kind, desc, sig):
 def run(ctx):
     ctx.prove()
     rng = ctx.rng
-    count = 300 if ctx.quick else 3000
-    max_n = 14 if ctx.quick else 18
+    count = 300 if ctx.quick else 1500
+    max_n = 14 if ctx.quick else 16
     stats = {}
     cases, terms = [], []
     reported = set()
     seen = set()
     n_eval = 0
+    for kind0, desc0 in fh.corner_cases():
+        rp0 = fh.BUILDERS[kind0](desc0)
+        for sig, msg, extra in check_instance(rp0, rng)[3]:
+            ctx.violation(f"{sig}/{kind0}/corner", f"{kind0}: {msg}",
+                          dict(fh.describe({"kind": kind0, "desc": desc0, "rp": rp0}), **extra), True)
     for case in fh.gen_objects(rng, count, max_n, stats=stats):
         rp, kind = case["rp"], case["kind"]
         d, S, outs, problems = check_instance(rp, rng)
